@@ -239,6 +239,7 @@ func c14(tier string) []*explore.Scenario {
 			}
 		}
 		out = append(out, withHistory(historyKinds(tier), base...)...)
+		out = append(out, withConfig(configKinds(tier), base...)...)
 	}
 	out = append(out, c14Batch(8, 2, 1), c14Batch(16, 2, 0), c14Batch(32, 2, 0), c01FailedWriteOlder("C14", 1))
 	// RPCs pending on the server at once (more than the 8 workers of the unary pool; up to 32 in all)
